@@ -91,7 +91,10 @@ Value& MemberPUTExpression::value(Context& ctx) const
       case Type::INTEGER:
         if (a1_type == Type::NUMERIC)
         {
-          rv->at(p).deref_value().swap(Value(Integer(*a1.numeric())));
+          if (a1.isNull())
+            rv->at(p).deref_value().swap(Value(Value::type_integer));
+          else
+            rv->at(p).deref_value().swap(Value(Integer(*a1.numeric())));
           return val;
         }
         else if (a1.type() == Type::NO_TYPE)
@@ -103,7 +106,10 @@ Value& MemberPUTExpression::value(Context& ctx) const
       case Type::NUMERIC:
         if (a1_type == Type::INTEGER)
         {
-          rv->at(p).deref_value().swap(Value(Numeric(*a1.integer())));
+          if (a1.isNull())
+            rv->at(p).deref_value().swap(Value(Value::type_numeric));
+          else
+            rv->at(p).deref_value().swap(Value(Numeric(*a1.integer())));
           return val;
         }
         else if (a1.type() == Type::NO_TYPE)
